@@ -80,6 +80,77 @@ static int idle_word(dispatch_queue_t q)
 			_dq_state_used_width(s, upcast(q)._dl->dq_width) == 0;
 }
 
+/* ---------------------------------------------------------------------------------------------------------------
+ * mode "walk" (finding F8): __DISPATCH_WAIT_FOR_QUEUE__ -> _dispatch_wait_compute_wlh walks the target chain of a
+ * legacy ("mutable") queue under that queue's side lock and reads each target's dq_state without holding a reference:
+ * the side lock is what keeps dq->do_targetq (and so the target's last reference) stable.  The pinned
+ * _dispatch_lane_legacy_set_target_queue took the side lock only #if HAVE_PTHREAD_WORKQUEUE_QOS, so on this platform a
+ * deferred retarget could store the new target and release (free) the old one while a waiter was looking at it.
+ * Here: Q (legacy) -> N1, the application's reference on N1 dropped; Q kept busy; A calls dispatch_sync_f(Q) and is
+ * held right before it reads N1's state word; main retargets Q to N2 and lets Q run.  N1 must not be disposed
+ * (dispose probe) while A is held inside its walk. */
+static _Atomic int w_hold, w_release, w_gate, w_gate_in;
+static dispatch_queue_t WQ, WN1;
+static _Atomic uint64_t w_hold_seq, w_resume_seq;
+static void walk_steer(struct dispatch_verif_site_s *s, const volatile void *a, int obj)
+{
+	(void)obj;
+	if (vrt_tid() != atomic_load(&g_a_tid) || strcmp(s->dvs_func, "_dispatch_wait_prepare") || s->dvs_op[0] != 'l') return;
+	if (a == (const volatile void *)&upcast(WQ)._dl->dq_state || atomic_load(&w_hold)) return;
+	atomic_store(&w_hold_seq, vrt_api("WalkHold", -1, 0, 0, 0));
+	atomic_store(&w_hold, 1);
+	for (int k = 0; k < 4000 && !atomic_load(&w_release); k++) usleep(100);      /* at most 400 ms */
+	atomic_store(&w_resume_seq, vrt_api("WalkResume", -1, 0, 0, 0));
+}
+static void gate_item(void *c) { (void)c; atomic_store(&w_gate_in, 1); while (!atomic_load(&w_gate)) usleep(100); }
+static void *walk_a(void *c) { (void)c; atomic_store(&g_a_tid, vrt_tid()); dispatch_sync_f(WQ, NULL, nop); return NULL; }
+static int walk_mode(int rounds)
+{
+	int held = 0;
+	vrt_set_steer(walk_steer);
+	for (int r = 0; r < rounds && !atomic_load(&g_fail); r++) {
+		vrt_pause(1);
+		WQ = dispatch_queue_create("verif.walk.Q", DISPATCH_QUEUE_SERIAL);
+		WN1 = dispatch_queue_create("verif.walk.N1", DISPATCH_QUEUE_SERIAL);
+		dispatch_queue_t N2 = dispatch_queue_create("verif.walk.N2", DISPATCH_QUEUE_SERIAL);
+		dispatch_set_target_queue(WQ, WN1);
+		dispatch_barrier_sync_f(WQ, NULL, nop);
+		vrt_unregister_all();
+		int o1 = vrt_register(WN1, sizeof(struct dispatch_lane_s), 1);
+		dispatch_release(WN1);                       /* only Q keeps N1 alive now */
+		atomic_store(&w_hold, 0); atomic_store(&w_release, 0); atomic_store(&w_gate, 0); atomic_store(&w_gate_in, 0);
+		atomic_store(&w_hold_seq, 0); atomic_store(&w_resume_seq, 0); atomic_store(&g_a_tid, -1);
+		vrt_pause(0);
+		size_t first = vrt_count();
+		dispatch_async_f(WQ, NULL, gate_item);
+		while (!atomic_load(&w_gate_in)) usleep(100);
+		pthread_t a;
+		pthread_create(&a, NULL, walk_a, NULL);
+		for (int k = 0; k < 20000 && !atomic_load(&w_hold); k++) usleep(100);
+		if (atomic_load(&w_hold)) held++;
+		dispatch_set_target_queue(WQ, N2);           /* Q is busy: deferred behind a barrier */
+		dispatch_release(N2);
+		atomic_store(&w_gate, 1);                    /* Q runs: gate item ends, the retarget barrier follows */
+		for (int k = 0; k < 2500 && WQ->do_targetq != N2; k++) usleep(100);     /* up to 250 ms for it to land */
+		atomic_store(&w_release, 1);
+		pthread_join(a, NULL);
+		dispatch_barrier_sync_f(WQ, NULL, nop);
+		vrt_progress();
+		/* judge: was N1 disposed while A was held inside its walk? */
+		uint64_t h = atomic_load(&w_hold_seq), e = atomic_load(&w_resume_seq);
+		for (size_t i = first; i < vrt_count(); i++) {
+			const vrt_rec_t *rec = vrt_get(i);
+			if (rec->kind == VRT_PROBE && rec->obj == o1 && !strcmp(rec->name, "dispose") && h && rec->seq > h && (!e || rec->seq < e))
+				oracle_fail("a target queue was disposed while a dispatch_sync waiter was walking through it under the side lock of the retargeted queue", r, (long)rec->seq);
+		}
+		dispatch_release(WQ);
+		usleep(2000);
+	}
+	vrt_dump();
+	fprintf(stderr, "rounds=%d windows_hit=%d records=%zu\n", rounds, held, vrt_count());
+	return atomic_load(&g_fail) ? 2 : 0;
+}
+
 int main(int argc, char **argv)
 {
 	const char *out = argc > 1 ? argv[1] : "/dev/null";
@@ -98,6 +169,7 @@ int main(int argc, char **argv)
 	vrt_set_post_steer(post_steer);
 	vrt_set_projector(proj);
 	(void)vrt_tid();
+	if (argc > 4 && !strcmp(argv[4], "walk")) return walk_mode(rounds);
 	int windows = 0;
 	pthread_t st;
 	pthread_create(&st, NULL, streamer, NULL);
